@@ -112,6 +112,9 @@ fn convert_unknown_references_are_errors() {
     assert!(matches!(r2, Err(ModelParseError::MalformedTree)));
     let r3 = convert_tree(PTree { state: 2, nodes: vec![node(0, "q1", TreeIndex::Node(7), TreeIndex::Node(7))] }, &lut);
     assert!(matches!(r3, Err(ModelParseError::MalformedTree)));
+    // a tree body without any node (a malformed file) is a value, not an index panic
+    let r4 = convert_tree(PTree { state: 2, nodes: vec![] }, &lut);
+    match &r4 { Ok(t) => assert!(t.nodes.len() == 0 && t.state == 2), Err(_) => {} }
     kani::cover!(true);
-    std::mem::forget((r, r2, r3, lut));
+    std::mem::forget((r, r2, r3, r4, lut));
 }
